@@ -112,7 +112,7 @@ consumermdib_mod.threading = types.SimpleNamespace(Thread=_SyncThread)
 
 # ------------------------------------------------------------------------------------------------ containers
 
-def mk_containers(two_mds=False, alerts=True, contexts=True, operations=False):
+def mk_containers(two_mds=False, alerts=True, contexts=True, operations=False, rt=False):
     """Small containment tree. Handles are fixed; versions can be overwritten by the harness afterwards."""
     ds = [dc.MdsDescriptorContainer('mds0', None),
           dc.VmdDescriptorContainer('vmd0', 'mds0'),
@@ -134,6 +134,11 @@ def mk_containers(two_mds=False, alerts=True, contexts=True, operations=False):
         op = dc.SetStringOperationDescriptorContainer('op0', 'sco0')
         op.OperationTarget = 'm0'
         ds += [dc.ScoDescriptorContainer('sco0', 'mds0'), op]
+    if rt:
+        rtd = dc.RealTimeSampleArrayMetricDescriptorContainer('rt0', 'ch0')
+        rtd.Resolution = Decimal('0.1')
+        rtd.SamplePeriod = 0.01
+        ds.append(rtd)
     if two_mds:
         ds += [dc.MdsDescriptorContainer('mds1', None),
                dc.VmdDescriptorContainer('vmd1', 'mds1'),
@@ -264,6 +269,23 @@ def deliver(cm, payload, action, vg=None):
 
 # ------------------------------------------------------------------------------------------------ canonical snapshots
 
+def descrs(mdib):
+    """Descriptors in a deterministic order (the tables are sets of objects hashed by id: their iteration order differs from
+    run to run, which makes CrossHair see 'different execution paths after the same decisions')."""
+    with untraced():
+        return sorted((o for o in mdib.descriptions.objects if o is not None), key=lambda o: o.Handle)
+
+
+def single_states(mdib):
+    with untraced():
+        return sorted((o for o in mdib.states.objects if o is not None), key=lambda o: o.DescriptorHandle)
+
+
+def ctx_states(mdib):
+    with untraced():
+        return sorted((o for o in mdib.context_states.objects if o is not None), key=lambda o: str(o.Handle))
+
+
 def canon(v, depth=0):
     """Canonical, comparable form of a property value (member-wise; never uses the library's __eq__)."""
     if v is None or isinstance(v, (str, int, float, Decimal)):
@@ -296,9 +318,9 @@ def canon_container(c):
 
 def snapshot(mdib, with_indices=True):
     """Full canonical content: version group, every descriptor / state / context state by handle, and index contents."""
-    descr = {d.Handle: canon_container(d) for d in mdib.descriptions.objects}
-    states = {s.DescriptorHandle: canon_container(s) for s in mdib.states.objects}
-    ctx = {s.Handle: canon_container(s) for s in mdib.context_states.objects}
+    descr = {d.Handle: canon_container(d) for d in descrs(mdib)}
+    states = {s.DescriptorHandle: canon_container(s) for s in single_states(mdib)}
+    ctx = {s.Handle: canon_container(s) for s in ctx_states(mdib)}
     snap = {'version': (mdib.mdib_version, mdib.sequence_id, mdib.instance_id),
             'descriptors': descr, 'states': states, 'context_states': ctx,
             'sizes': (len(mdib.descriptions.objects), len(mdib.states.objects), len(mdib.context_states.objects)),
@@ -353,9 +375,9 @@ def index_scan(mdib):
 def referential_integrity(mdib):
     """Labels of violated structural invariants (C02 third sentence); empty list = fine."""
     bad = []
-    dmap = {d.Handle: d for d in mdib.descriptions.objects}
+    dmap = {d.Handle: d for d in descrs(mdib)}
     seen = {}
-    for s in mdib.states.objects:
+    for s in single_states(mdib):
         d = dmap.get(s.DescriptorHandle)
         if d is None:
             bad.append('state-without-descriptor')
@@ -364,13 +386,13 @@ def referential_integrity(mdib):
         seen[s.DescriptorHandle] = seen.get(s.DescriptorHandle, 0) + 1
     if any(n > 1 for n in seen.values()):
         bad.append('two-single-states-for-one-descriptor')
-    for s in mdib.context_states.objects:
+    for s in ctx_states(mdib):
         d = dmap.get(s.DescriptorHandle)
         if d is None:
             bad.append('context-state-without-descriptor')
         elif s.DescriptorVersion != d.DescriptorVersion:
             bad.append('context-state-descriptor-version-mismatch')
-    for d in mdib.descriptions.objects:
+    for d in descrs(mdib):
         if d.parent_handle is not None and d.parent_handle not in dmap:
             bad.append('descriptor-without-parent')
     return bad
